@@ -740,6 +740,10 @@ var regexSamples = []regexSample{
 	{`qqqq(a)xxxx|zzzz(b)`, []string{"qqqqaxxxx", "zzzzb"}, "alternation between two groups: stripping from the first '(' to the last ')' must not hide it"},
 	{`qqqq[a]xxxx|zzzz[b]yyyy`, []string{"qqqqaxxxx", "zzzzbyyyy"}, "alternation between two character classes"},
 	{`qqqqx{1}|zzzzy{1}wwww`, []string{"qqqqx", "zzzzywwww"}, "alternation between two counted repetitions"},
+	{`qqqq[(]xxxx|zzzz[)]`, []string{"qqqq(xxxx", "zzzz)"}, "alternation between a class holding '(' and a class holding ')': the brackets inside classes are not a group"},
+	{`qqqq[)]xxxx|zzzz[(]wwww`, []string{"qqqq)xxxx", "zzzz(wwww"}, "alternation between a class holding ')' and a class holding '('"},
+	{`qqqq\(xxxx|zzzz\)wwww`, []string{"qqqq(xxxx", "zzzz)wwww"}, "alternation between two escaped brackets"},
+	{`qqqq[|]zzzz`, []string{"qqqq|zzzz"}, "a '|' inside a character class is literal text"},
 }
 
 // cutScanSplitter recognises the candidate pieces being cut by a scan instead
